@@ -81,6 +81,60 @@ def handleTraverse (j : Json) : Except String Json := do
   | .error, "error" => pure (Json.mkObj [("diff", strs []), ("mon", strs [])])
   | m, k => pure (Json.mkObj [("diff", strs [s!"outcome: model={m.kind} impl={k}"]), ("mon", strs [])])
 
+structure CollSnap where
+  ents : List (Nat × Cell)
+  loc : CollDict
+  search : CollDict
+  deriving FromJson
+
+structure CollStep where
+  op : String
+  id : Nat
+  cell : Option Cell := none
+  tag : Option Nat := none
+  outcome : String
+  after : CollSnap
+  deriving FromJson
+
+def flatCollSnap (ents : List (Nat × Cell)) (ix : Index) : Flat :=
+  ((sortBy (fun a b => a.1 ≤ b.1) ents).map fun (i, c) => (s!"ent[{i}]", Val.s (toString c))) ++
+  [("nents", .s (toString ents.length))] ++ flatIndex "idx" ix
+
+/-- function-level record: an operation sequence on one indexed collection -/
+def handleColl (j : Json) : Except String Json := do
+  let parentTbl : List (Cell × Cell) ← optField j "parent" []
+  let fixed : Bool ← optField j "fixed" false
+  let steps : List CollStep ← getField j "steps"
+  let parent (c : Cell) : Cell := match parentTbl.find? (fun p => p.1 == c) with
+    | some p => p.2
+    | none => 999999999
+  let mut c : Coll := Coll.empty
+  let mut diffs : List String := []
+  let mut mons : List String := []
+  let mut k := 0
+  for st in steps do
+    let e : Ent := ⟨st.id, st.cell.getD 0, st.tag.getD 0⟩
+    let res : Outcome Coll := match st.op with
+      | "add" => Coll.add parent c e
+      | "modify" => if fixed then Coll.modifyFixed c e else Coll.modify parent c e
+      | _ => Coll.remove parent c st.id
+    let kind := res.kind
+    if kind != st.outcome && !(kind == "error" && st.outcome == "raise") then
+      diffs := diffs ++ [s!"step {k} {st.op} {st.id}: outcome model={kind} impl={st.outcome}"]
+    match res with
+    | .ok c' => c := c'
+    | _ => pure ()
+    let implIx : Index := ⟨st.after.loc, st.after.search⟩
+    let d := diffFlat (flatCollSnap (c.ents.map fun e => (e.id, e.cell)) c.ix) (flatCollSnap st.after.ents implIx)
+    if !d.isEmpty then
+      diffs := diffs ++ (d.take 4).map (fun x => s!"step {k} {st.op} {st.id}: {x}")
+      -- resynchronise on the implementation's state
+      c := { ents := st.after.ents.map (fun (i, cl) => ⟨i, cl, 0⟩), ix := implIx }
+    if !(implIx.ok parent st.after.ents) then
+      mons := mons ++ [s!"C08/index-after-{st.op}| step {k} {st.op} {st.id}: the implementation's index maps disagree with its entities"]
+    k := k + 1
+  pure (Json.mkObj [("diff", strs diffs), ("mon", strs mons)])
+
 def handle (st : DState) (line : String) : DState × Json :=
   match Json.parse line with
   | .error e => (st, Json.mkObj [("error", Json.str s!"parse: {e}")])
@@ -95,6 +149,10 @@ def handle (st : DState) (line : String) : DState × Json :=
       | .error e => (st, withId (Json.mkObj [("error", Json.str e)]))
     | "apply" | "update" | "tick" =>
       match handlePhase st op j with
+      | .ok r => (st, withId r)
+      | .error e => (st, withId (Json.mkObj [("error", Json.str e)]))
+    | "coll" =>
+      match handleColl j with
       | .ok r => (st, withId r)
       | .error e => (st, withId (Json.mkObj [("error", Json.str e)]))
     | "traverse" =>
